@@ -151,7 +151,9 @@ class UTPM(Ring, RawAlgorithmsMixIn):
             if not isinstance(sl, tuple):
                 sl = (sl,)
             self.data.__setitem__((slice(1,None),slice(None)) + sl, 0)
-            return self.data.__setitem__((0,slice(None)) + sl, rhs)
+            # (indexing the view data[0]: an integer 0 in front of an advanced index in sl
+            # would move the index axis in front of the direction axis)
+            return self.data[0].__setitem__((slice(None),) + sl, rhs)
 
 
     @property
